@@ -104,3 +104,50 @@ Theorem C15_run_command_word : forall argv o c words l,
                  /\ In c command_names.
 Proof. exact run_command_word. Qed.
 Print Assumptions C15_run_command_word.
+
+(* ---- which command a command line reaches (Model/Dispatch.v; every process-level step of a
+   history is compared with it: LC.argv_ok) ---- *)
+From LC Require Import Model.Dispatch Proofs.DispatchP.
+(* (d) a structured command line dispatches to the command built from the command word, the
+   words and the command's OWN switches, under options that are the disjunction of the global
+   switches written anywhere on it *)
+Theorem C15_dispatch_structured : forall pre cmd post locals lo hi o c,
+  forallb pre_ok pre = true ->
+  command_info cmd = Some (locals, lo, hi) ->
+  forallb (local_ok locals) post = true ->
+  dispatch (render_toks pre ++ [cmd] ++ render_toks post) = Some (o, c) ->
+  command_of cmd (toks_words post) (toks_asg post) = Some c
+  /\ o = flags_of (toks_asg (pre ++ post)) o0.
+Proof. exact dispatch_structured. Qed.
+Print Assumptions C15_dispatch_structured.
+
+Theorem C15_dispatch_options : forall pre cmd post locals lo hi o c,
+  forallb pre_ok pre = true ->
+  command_info cmd = Some (locals, lo, hi) ->
+  forallb (local_ok locals) post = true ->
+  dispatch (render_toks pre ++ [cmd] ++ render_toks post) = Some (o, c) ->
+  o_p o = has_true (toks_asg (pre ++ post)) (bs "p")
+  /\ o_force o = has_true (toks_asg (pre ++ post)) (bs "force")
+  /\ o_v o = has_true (toks_asg (pre ++ post)) (bs "v").
+Proof. exact dispatch_options. Qed.
+Print Assumptions C15_dispatch_options.
+
+(* (e) "global options may be specified anywhere in the command line": the same switch in front
+   of the command word or at any position behind it -- same command, same options *)
+Theorem C15_dispatch_switch_anywhere : forall pre cmd post1 post2 locals lo hi sw o1 c1 o2 c2,
+  forallb pre_ok pre = true ->
+  command_info cmd = Some (locals, lo, hi) ->
+  forallb (local_ok locals) (post1 ++ post2) = true ->
+  In sw common_bools ->
+  dispatch (render_toks (pre ++ [TBool sw]) ++ [cmd] ++ render_toks (post1 ++ post2)) = Some (o1, c1) ->
+  dispatch (render_toks pre ++ [cmd] ++ render_toks (post1 ++ TBool sw :: post2)) = Some (o2, c2) ->
+  c1 = c2 /\ o1 = o2.
+Proof. exact dispatch_switch_anywhere. Qed.
+Print Assumptions C15_dispatch_switch_anywhere.
+
+(* (f) no global switch changes WHICH command is reached or with which arguments *)
+Theorem C15_command_ignores_global : forall cmd args l1 l2 sw v,
+  In sw common_bools ->
+  command_of cmd args (l1 ++ (sw, v) :: l2) = command_of cmd args (l1 ++ l2).
+Proof. exact command_of_ignores_global. Qed.
+Print Assumptions C15_command_ignores_global.
